@@ -159,15 +159,18 @@ theorem prim_rt_td64 (ht : env.time = TimeCfg.repaired)
   cases v <;> simp [primValueOk, KType.isFixedInt, timedeltaMinUs, timedeltaMaxUs] at hv
   exact timedelta_roundtrip env.time (by rw [ht]; rfl) 8 (by omega) _ (by omega) ⟨of_decide_eq_true hv.1.2, of_decide_eq_true hv.2⟩ bs rest he
 
-theorem prim_rt_dt (ht : env.time = TimeCfg.repaired) (hfl : FloatExact) (hopt : optW = optR)
+theorem prim_rt_dt (ht : env.time = TimeCfg.repaired) (hfl : FloatExact) (hopt : optW = true → optR = true)
     (hw : getWriter .datetimeI64 flex optW = .ok w) (hr : getReader .datetimeI64 flex optR = .ok r)
     (hv : primValueOk env .datetimeI64 true v = true) (he : w.run env v = .ok bs) :
     r.run env (bs ++ rest) = .ok (v, rest) := by
-  subst hopt
-  cases optW <;> simp [getWriter, getReader] at hw hr <;> subst hw hr <;>
+  cases optW <;> cases optR <;> simp at hopt <;>
+    simp [getWriter, getReader] at hw hr <;> subst hw hr <;>
     cases v <;> simp [primValueOk, KType.isFixedInt, maxDatetimeUs] at hv
   · simp only [PrimR.run, ht]
     exact (datetime_roundtrip hfl _ (by omega) hv.1.2 (of_decide_eq_true hv.2) bs rest he).1
+  · simp [PrimW.run, writeDatetimeI64] at he
+  · simp only [PrimR.run, ht]
+    exact (datetime_roundtrip hfl _ (by omega) hv.1.2 (of_decide_eq_true hv.2) bs rest he).2
   · simp [PrimW.run, writeDatetimeI64] at he
   · simp only [PrimR.run, ht]
     exact (datetime_roundtrip hfl _ (by omega) hv.1.2 (of_decide_eq_true hv.2) bs rest he).2
@@ -179,35 +182,43 @@ end
 section
 variable (env : Env) (flex optW optR : Bool) (w : PrimW) (r : PrimR) (v : Value) (bs rest : Bytes)
 
-theorem prim_rt_string (hopt : optW = optR)
+theorem prim_rt_string (hopt : optW = true → optR = true)
     (hw : getWriter .string flex optW = .ok w) (hr : getReader .string flex optR = .ok r)
     (hv : primValueOk env .string true v = true) (he : w.run env v = .ok bs) :
     r.run env (bs ++ rest) = .ok (v, rest) := by
-  subst hopt
-  cases flex <;> cases optW <;> simp [getWriter, getReader] at hw hr <;> subst hw hr <;>
+  cases flex <;> cases optW <;> cases optR <;> simp at hopt <;>
+    simp [getWriter, getReader] at hw hr <;> subst hw hr <;>
     cases v <;> simp [primValueOk, KType.isFixedInt] at hv
   · exact legacyString_roundtrip false _ hv bs rest he
+  · simp [PrimW.run, writeLegacyString] at he
+  · exact legacyString_roundtrip true _ hv bs rest he
   · simp [PrimW.run, writeLegacyString] at he
   · exact legacyString_roundtrip true _ hv bs rest he
   · exact legacyString_null bs rest he
   · exact compactString_roundtrip false _ hv bs rest he
   · simp [PrimW.run, writeCompactString] at he
   · exact compactString_roundtrip true _ hv bs rest he
+  · simp [PrimW.run, writeCompactString] at he
+  · exact compactString_roundtrip true _ hv bs rest he
   · exact compactNull_string bs rest he
 
-theorem prim_rt_bytes (k : KType) (hk : k = .bytes ∨ k = .records) (hopt : optW = optR)
+theorem prim_rt_bytes (k : KType) (hk : k = .bytes ∨ k = .records) (hopt : optW = true → optR = true)
     (hw : getWriter k flex optW = .ok w) (hr : getReader k flex optR = .ok r)
     (hv : primValueOk env k true v = true) (he : w.run env v = .ok bs) :
     r.run env (bs ++ rest) = .ok (v, rest) := by
-  subst hopt
   rcases hk with rfl | rfl <;>
-  (cases flex <;> cases optW <;> simp [getWriter, getReader] at hw hr <;> subst hw hr <;>
+  (cases flex <;> cases optW <;> cases optR <;> simp at hopt <;>
+    simp [getWriter, getReader] at hw hr <;> subst hw hr <;>
     cases v <;> simp [primValueOk, KType.isFixedInt] at hv
    · exact legacyBytes_roundtrip false _ bs rest he
    · simp [PrimW.run, writeLegacyBytes] at he
    · exact legacyBytes_roundtrip true _ bs rest he
+   · simp [PrimW.run, writeLegacyBytes] at he
+   · exact legacyBytes_roundtrip true _ bs rest he
    · exact legacyBytes_null bs rest he
    · exact compactBytes_roundtrip false _ bs rest he
+   · simp [PrimW.run, writeCompactString] at he
+   · exact compactBytes_roundtrip true _ bs rest he
    · simp [PrimW.run, writeCompactString] at he
    · exact compactBytes_roundtrip true _ bs rest he
    · exact compactNull_bytes bs rest he)
@@ -215,7 +226,7 @@ theorem prim_rt_bytes (k : KType) (hk : k = .bytes ∨ k = .records) (hopt : opt
 end
 
 theorem prim_roundtrip' (env : Env) (ht : env.time = TimeCfg.repaired) (hfl : FloatExact)
-    (k : KType) (flex optW optR : Bool) (hopt : optW = optR ∨ k = .uuid) (w : PrimW) (r : PrimR)
+    (k : KType) (flex optW optR : Bool) (hopt : (optW = true → optR = true) ∨ k = .uuid) (w : PrimW) (r : PrimR)
     (hw : getWriter k flex optW = .ok w) (hr : getReader k flex optR = .ok r)
     (v : Value) (hv : primValueOk env k true v = true) (bs : Bytes) (he : w.run env v = .ok bs)
     (rest : Bytes) : r.run env (bs ++ rest) = .ok (v, rest) := by
